@@ -1,11 +1,11 @@
 SPECIFICATION Spec
 CONSTANTS
-  Callers = {"a", "b", "c"}
+  Callers = {"a", "b"}
   NReq = 2
-  NServe = 6
-  OpCap = 1
+  NServe = 3
+  OpCap = 2
   ResCap = 2
   ReplyLocksTarget = FALSE
-  SafeCompletion = TRUE
+  SafeCompletion = FALSE
 INVARIANTS Inv_NoPanic Inv_Pairing Inv_PerCallerOrder Inv_NoStuck
 CHECK_DEADLOCK FALSE
